@@ -289,6 +289,13 @@ func equal(lhsV, rhsV reflect.Value) bool {
 // numberFromString returns the number a string denotes for equal:
 // an int64 when it is a decimal integer, else a float64.
 func numberFromString(v reflect.Value) (reflect.Value, bool) {
+	// only a decimal numeral denotes a number here: strconv also reads
+	// hexadecimal floats ("0x1p4"), "inf", "infinity" and "nan"
+	for _, r := range v.String() {
+		if (r < '0' || r > '9') && r != '+' && r != '-' && r != '.' && r != 'e' && r != 'E' && r != '_' {
+			return v, false
+		}
+	}
 	if i, err := tryToInt64(v); err == nil {
 		return reflect.ValueOf(i), true
 	}
